@@ -71,6 +71,17 @@ func ChatPkg(user, text string) packager.Package {
 		map[string]any{user: base64.StdEncoding.EncodeToString([]byte(text))})
 }
 
+// BarrierPkg is a one-shot chat message (Head.OneTime "true": broadcast, never retained).
+// A newcomer sends it right after its replay has arrived: its echo proves that the
+// newcomer's handler has left SendAllPackagesToNewClient and is in its dispatch loop
+// (a session registered while the replay loop is still running is otherwise announced
+// to the newcomer twice, once live and once by the loop).
+func BarrierPkg(user, text string) packager.Package {
+	p := ChatPkg(user, text)
+	p.Head.OneTime = "true"
+	return p
+}
+
 // QuiesceTo waits until the goroutine count is baseline+extra (extra = handlers and
 // harness readers the caller knows to be alive).
 func (f *Fixture) QuiesceTo(extra int, d time.Duration) bool {
